@@ -666,6 +666,16 @@ impl DtlsInner {
                     let consumed = msg_buf.len() - body.len();
                     let raw_msg = msg_buf.slice(0..consumed);
 
+                    // The flight that answers our cookie ClientHello starts with the
+                    // ServerHello. Until that has been taken, anything else is a copy of
+                    // the HelloVerifyRequest or a later message of the flight that
+                    // overtook the ServerHello; adopting its sequence number below would
+                    // skip the ServerHello for good (every retransmission of it would
+                    // then look like a duplicate). Wait for the retransmitted flight.
+                    if ctx.post_hvr && is_client && msg.msg_type != HandshakeType::ServerHello {
+                        continue;
+                    }
+
                     if msg.message_seq < ctx.recv_message_seq {
                         // If we just processed a HelloVerifyRequest, the server may
                         // restart its message_seq at a value lower than what we expect
